@@ -113,6 +113,17 @@ def gen_history(rng, hid):
                "ips": "192.168.1.10" if ifaces is IFACES and rng.random() < 0.5 else "auto",
                "port": 80, "props": [["6b", "76"]]}
         both(calls=[{"op": "monitor", "ch": "m"}, {"op": "register", "svc": svc}])
+        if rng.random() < 0.4:
+            # a competing prober with lexicographically later data: we lose the tiebreak and
+            # must come back for the retry one second later (needs a timer)
+            run(300)
+            full = [svc["name"].encode()] + ty
+            q = dnsgen.Packet(compress=True)
+            q.question(full, 255)
+            q.rr(2, full, 33, 1, 120, dnsgen.rd_srv(0, 0, 65535, [b"zzzz", b"local"]))
+            v4 = ifaces is not IFACES_V6
+            both(dgrams=[{"if": 2, "v4": v4, "src": "192.168.1.88:5353" if v4 else "[fe80::88]:5353", "hex": q.finish(flags=0).hex()}])
+            run(2600)
         run(rng.choice([300, 2600]))
         if rng.random() < 0.8:
             both(calls=[{"op": "unregister", "name": "%s.%s" % (svc["name"], TY), "ch": "u"}])
